@@ -489,6 +489,7 @@ type Contract struct {
 	Modifies []string
 	HasMod   bool
 	Loops    map[int]*LoopSpec
+	Sites    map[int][]*Clause // `site append N: assert E` / `site append N: cov += E` (N-th append in source order)
 	Flags    map[string]string
 	Trusted  bool
 	File     string
@@ -545,7 +546,7 @@ func newContracts() *Contracts {
 
 var clauseKeywords = map[string]bool{
 	"typeinv": true, "pool": true, "config": true, "package": true, "func": true, "dyn": true, "iface": true, "var": true, "global": true, "spec": true, "axiom": true, "track": true, "effect": true,
-	"props": true, "arith": true, "requires": true, "ensures": true, "ensures!": true, "modifies": true, "loop": true,
+	"props": true, "arith": true, "requires": true, "ensures": true, "ensures!": true, "modifies": true, "loop": true, "site": true,
 	"invariant": true, "decreases": true, "assert": true, "flag": true, "trusted": true,
 }
 
@@ -817,6 +818,36 @@ func (cs *Contracts) loadContractFile(file, pkg string, trusted bool) error {
 				if rest != "nothing" {
 					cur.Modifies = append(cur.Modifies, splitNames(rest)...)
 				}
+			case "site":
+				// site append N: assert [props] E   |   site append N: cov += E
+				f := strings.SplitN(rest, ":", 2)
+				hd := strings.Fields(f[0])
+				if len(f) != 2 || len(hd) != 2 || hd[0] != "append" {
+					return fail(rl.line, "site append <N>: assert <expr> | cov += <expr>")
+				}
+				n, err := strconv.Atoi(hd[1])
+				if err != nil {
+					return fail(rl.line, "bad site ordinal %q", hd[1])
+				}
+				body := strings.TrimSpace(f[1])
+				kind := ""
+				switch {
+				case strings.HasPrefix(body, "assert "):
+					kind, body = "site-assert", strings.TrimSpace(body[len("assert "):])
+				case strings.HasPrefix(body, "cov += "):
+					kind, body = "site-cov", strings.TrimSpace(body[len("cov += "):])
+				default:
+					return fail(rl.line, "site append <N>: assert <expr> | cov += <expr>")
+				}
+				props, body2 := parseProps(body)
+				e, err := parseExpr(body2)
+				if err != nil {
+					return fail(rl.line, "%v in %q", err, body2)
+				}
+				if cur.Sites == nil {
+					cur.Sites = map[int][]*Clause{}
+				}
+				cur.Sites[n] = append(cur.Sites[n], &Clause{Kind: kind, Props: props, E: e, Src: body2, File: file, Line: rl.line, Idx: len(cur.Sites[n]) + 1})
 			case "loop":
 				n, err := strconv.Atoi(strings.TrimSuffix(rest, ":"))
 				if err != nil {
